@@ -90,4 +90,33 @@ CHECKS = {
                   "quick": {"count": 480, "budget": 75, "workers": 8},
                   "thorough": {"count": 200000, "budget": 900, "workers": 16}}],
     },
+    "C04": {
+        "level": "exploration",
+        "rule": ("one evaluation = a simulated run of a generated model with 1-3 ACTIONX blocks (bodies: WELOPEN, WEFAC, WELTARG, WECON, WTEST, "
+                 "WCONPROD/WCONINJE, GCONPROD with '?' and named wells) whose firings are decided by the run; afterwards every recorded "
+                 "application is inlined as text at the end of block n, in firing order, and the stock constructor's Schedule is compared state by "
+                 "state with the run-time mutated one (public-query image, exact; member-wise equality of ScheduleState with the event markers "
+                 "masked at application steps). Snapshots before n are re-verified (serialised bytes and query image) after every application. "
+                 "distinct = hash of (units, wells, steps, sequence of (action, step, #wells)); non-trivial = at least one application"),
+        "assumptions": ["WELPI/UDQ bodies are excluded (deliberately different run-time meaning); WPIMULT and connection-level WELOPEN (the statement's exceptions) are not generated yet",
+                        "`udq` is compared through definitions, not operator==: UDQConfig::eval mutates bookkeeping inside the object during a run",
+                        "Well/Group operator== also compare a UnitSystem object with a lazily filled dimension cache; a pair failing operator== is accepted iff every other constituent is equal"],
+        "bins": [{"name": "c04", "srcs": ["scen/c04_inline.cpp", "scen/srun/model.cpp", "scen/srun/driver.cpp", "scen/srun/schedcmp.cpp", "scen/srun/packing.cpp"],
+                  "quick": {"count": 320, "budget": 75, "workers": 8},
+                  "thorough": {"count": 100000, "budget": 900, "workers": 16}}],
+    },
+    "C03": {
+        "level": "exploration",
+        "rule": ("odd runs (decided by simulation): a simulated run whose firing actions mutate the Schedule; serialised bytes and public-query image "
+                 "of snapshots 0..k are taken when simulated time passes report step k and re-verified after every later applyAction and at run "
+                 "end. Even runs (generated-input relation, stated as such): for every cut point k the schedules of the full deck, of the deck "
+                 "truncated after k and of two decks with a different tail after k must agree on states 0..k (query image exact + member-wise "
+                 "equality, end time of state k masked). distinct = hash of (kind, units, wells, steps, mutations); non-trivial = >= 1 mutation "
+                 "with image checks, or >= 2 cut/tail variants"),
+        "assumptions": ["state k = the input up to and including the keywords entered at the end of report step k (block k); a cut keeps block k",
+                        "Schedule-level containers documented to look ahead are outside ScheduleState and not compared"],
+        "bins": [{"name": "c03", "srcs": ["scen/c03_causal.cpp", "scen/srun/model.cpp", "scen/srun/driver.cpp", "scen/srun/schedcmp.cpp", "scen/srun/packing.cpp"],
+                  "quick": {"count": 240, "budget": 75, "workers": 8},
+                  "thorough": {"count": 100000, "budget": 900, "workers": 16}}],
+    },
 }
